@@ -378,7 +378,9 @@ impl<'a> CompilerState<'a> {
 
         // Create collected literal variables in memory
         self.literal_counter += res.1.len();
-        for k in &res.1 {
+        let mut literals: Vec<(&String, &String)> = res.1.iter().collect();
+        literals.sort();
+        for k in literals {
             let vb = k.1.as_bytes();
             let mut v = Vec::<VariableValue>::new();
             for c in vb.iter() {
@@ -543,7 +545,9 @@ impl<'a> CompilerState<'a> {
 
         // Create collected literal variables in memory
         self.literal_counter += res.1.len();
-        for k in &res.1 {
+        let mut literals: Vec<(&String, &String)> = res.1.iter().collect();
+        literals.sort();
+        for k in literals {
             let vb = k.1.as_bytes();
             let mut v = Vec::<VariableValue>::new();
             for c in vb.iter() {
